@@ -70,7 +70,7 @@ func init() {
 		Rule: "One case = one clear single-track CMAF input (same generator and pinned boundary cases as C07: AVC/HEVC with own parameter sets and slice headers, AAC/AC-3 audio, NAL size classes 5..15/16/17..91/92..130/131..999/~1k/~70k, non-VCL NAL > 65535, 1..4 fragments, uuid tfxd/tfrf/unknown, unknown 4cc, free, pssh boxes in moof/traf; the repo's real clear streams) x one configuration (cenc|cbcs, key random|zero|ff, IV 8|16 incl. counter wraps, optional pssh), " +
 			"encrypted by library protocol (InitProtect, EncryptFragment, Encode; reader|slice reader; combined|separate init; ExtractInitProtectData) or mp4ff-encrypt, then decrypted by library protocol (DecryptInit, DecryptSegment, Encode in segment or box-tree mode) or mp4ff-decrypt (combined or -init), independently chosen. " +
 			"Oracle on the decrypted *bytes*, read with ref/boxwalk + ref/cenc: samples (bytes via moof start + data_offset, size, duration, flags, cto, decode time) = generator ground truth; sample entry type restored and no sinf left; every non-protection box of the same-mode re-encode of the clear input present, in order, byte-identical (trun data_offset masked and checked through the sample bytes; container size fields excluded; top-level sidx excluded). " +
-			"Third-party cases (appended): the repo's cenc/cbcs/cbcs-audio/PIFF files decrypted with the test key, a wrong key and the zero key by library (3 variants) and tool: per track and fragment sample count/size/duration/cto/decode time unchanged, and the sample bytes equal the reference cipher's decryption with that key. " +
+			"Case list: the 88 pinned cases of C07, 5400 (quick) / 250000 (thorough) random cases, 60 third-party cases. Third-party cases (appended): the repo's cenc/cbcs/cbcs-audio/PIFF files decrypted with the test key, a wrong key and the zero key by library (3 variants) and tool: per track and fragment sample count/size/duration/cto/decode time unchanged, and the sample bytes equal the reference cipher's decryption with that key. " +
 			"Non-trivial = the encryption produced at least one sample with a protected range (read from the encrypted bytes) and the decryption ran; distinct_nontrivial counts distinct (clear file, configuration, path) hashes; evaluations counts compared samples.",
 		Assumptions: []string{
 			"a refusal to encrypt is accepted only where documented: ExtractInitProtectData/-init with avc3/hev1, more than one trun per traf, and samples whose auxiliary information cannot be described by the 8-bit saiz size",
